@@ -2,7 +2,10 @@ import H5V.Model.Dom
 import H5V.Lemmas.DomOps
 import H5V.Lemmas.DomKinds
 import H5V.Lemmas.DomSer
--- import H5V.Lemmas.DomText
+import H5V.Lemmas.DomText2
+import H5V.Lemmas.DomText3
+import H5V.Lemmas.DomStep
+import H5V.Lemmas.DomAttrs
 /-!
 C20 — RcDom materialises sink operations faithfully.
 
@@ -11,24 +14,34 @@ correspondence).  This file proves, for **all** arenas satisfying the invariant 
 calls satisfying the TreeSink contract `Contract` (and hence, by induction, for all contract-abiding
 call sequences starting from `RcDom::default()`):
 
-* `C20_parent_links_step`, `C20_parent_links`, `C20_reachable_inv` — every node's parent link names
-  exactly the node whose child list contains it, no node is listed twice, no cycles, only
-  documents/elements have children;
-* `C20_text_merge_append`, `C20_text_merge_before_sibling`, `C20_no_adjacent_text_*`,
-  `C20_remove_breaks_adjacency_iff`, `C20_reparent_breaks_adjacency_iff` — text merging;
+* `C20_parent_links_step`, `C20_parent_links`, `C20_reachable_inv`, `C20_isAncOrSelf_iff` — every
+  node's parent link names exactly the node whose child list contains it, no node is listed twice,
+  no cycles, only documents/elements have children, no `Document` node is a child;
+* `C20_text_merge_append`, `C20_text_merge_before_sibling`, `C20_no_adjacent_text_append`,
+  `C20_no_adjacent_text_before_sibling`, `C20_no_adjacent_text_step`,
+  `C20_remove_breaks_adjacency_iff`, `C20_reparent_breaks_adjacency_iff` — text merging: what is
+  concatenated where, "no two adjacent text siblings" is kept by every call that cannot detach a
+  node, and exactly when detaching / re-parenting breaks it;
 * `C20_attrs`, `C20_attrs_no_overwrite`, `C20_reparent`, `C20_template_contents`,
   `C20_remove_from_parent` — the other operations;
 * `C20_before_sibling_position_partial` + `C20_witness_before_sibling` — `append_before_sibling`
   puts the node immediately before the sibling *unless the node already is an earlier child of the
-  same parent* (then rcdom uses a stale index: defect);
-* `C20_clone_asCode_noop`, `C20_clone_option_partial`, `C20_witness_clone_option` — option →
-  selectedcontent mirroring: rcdom never mirrors (DESIGN 1.3 item 11: defect); it agrees with the
-  standard exactly when the standard has nothing to do;
+  same parent* (then rcdom uses a stale index: defect found by this property);
+* `C20_clone_asCode_noop`, `C20_clone_option_partial`, `C20_witness_clone_option`,
+  `C20_clone_option_fixed_example` — option → selectedcontent mirroring: rcdom never mirrors
+  (DESIGN 1.3 item 11: defect); it agrees with the standard exactly when the standard has nothing to do;
 * `C20_serialize_preorder`, `C20_serialize_each_node_once` — rcdom's `Serialize` visits every node of
-  a tree exactly once, in document order.
+  a tree exactly once, in document order, and never panics / runs out of the stated fuel.
+
+Modelled but not proved: that no call within the contract panics (the correspondence's valid
+families never panic; `nearestSelectLoop`/`bfsAsCode` fuel adequacy); the deep-copy correctness and
+`Inv` preservation of `Dom.cloneOptionInto .fixed` (validated against the Python reference and a
+patched scratch copy of rcdom, and on `C20_clone_option_fixed_example`); `Rc`/`Weak` lifetimes.
 -/
 namespace H5V.Props.C20
 open H5V.Model.Dom H5V.Lemmas.Dom
+
+deriving instance DecidableEq for Except
 
 /-! ## the invariant -/
 
@@ -46,15 +59,18 @@ structure Inv (d : Dom) : Prop where
 theorem Inv.parentLinksConsistent {d : Dom} (h : Inv d) : ParentLinksConsistent d :=
   ⟨h.wf.links, h.wf.nodup⟩
 
-/-- the model as it stands follows the code (`cloneVariant = .asCode`); after the switch is flipped
-this line (and only this line) stops compiling: use `WF.applyV`/`Kinds.applyV` for `.fixed` then. -/
-theorem apply_eq_asCode (d : Dom) (op : SinkOp) : d.apply op = d.applyV .asCode op := rfl
+/-- the model as it stands follows the code for option cloning (`cloneVariant = .asCode`); the general
+theorems hold for either value of `beforeSiblingVariant`.  After `cloneVariant` is flipped this line
+(and only this line of the general theorems) stops compiling; the `decide`d witness theorems of a
+flipped switch then state something false and have to go, too. -/
+theorem apply_eq_asCode (d : Dom) (op : SinkOp) :
+    d.apply op = d.applyV .asCode Dom.beforeSiblingVariant op := rfl
 
 /-- **Every sink call preserves the invariant** (all arenas, all calls within the contract). -/
 theorem C20_parent_links_step {d d' : Dom} {op : SinkOp} {out : Output} (hi : Inv d)
     (hc : Contract d op) (h : d.apply op = .ok (d', out)) : Inv d' := by
   rw [apply_eq_asCode] at h
-  exact ⟨hi.wf.applyV_asCode hc h, hi.kinds.applyV_asCode hi.wf hc h⟩
+  exact ⟨hi.wf.applyV hc h, hi.kinds.applyV hi.wf hc h⟩
 
 /-- a contract-abiding run: every call satisfies the contract in the state it is made in and
 returns normally -/
@@ -136,5 +152,335 @@ theorem exRun : Run Dom.new exOps exDom := run_of_check (by decide)
 example : Inv exDom := C20_reachable_inv exRun
 example : exDom.dump = "(doc(tx,78 79)(el,~/68/74 61 62 6c 65,-,-(el,~/68/69,-,-(tx,7a))));Q=no" := by decide
 end Example
+
+/-! ## text merging -/
+
+/-- `append(parent, text)`: either the last child is a text node — then `s` is concatenated onto it
+and nothing else changes — or it is not, and one fresh text node `s` becomes the new last child.
+In both cases the insertion point does not show two adjacent text nodes. -/
+theorem C20_text_merge_append {d d' : Dom} {p : Id} {s : Str} (h : d.append p (.text s) = .ok d') :
+    (∃ last old, (d.childrenOf p).getLast? = some last ∧ d.dataOf last = some (.text old) ∧
+        d'.dataOf last = some (.text (old ++ s)) ∧ (∀ x, x ≠ last → d'.dataOf x = d.dataOf x) ∧
+        (∀ x, d'.childrenOf x = d.childrenOf x) ∧ (∀ x, d'.parentOf x = d.parentOf x) ∧ d'.size = d.size) ∨
+    ((∀ last, (d.childrenOf p).getLast? = some last → d.isText last = false) ∧
+        d'.childrenOf p = d.childrenOf p ++ [d.size] ∧ d'.dataOf d.size = some (.text s) ∧
+        d'.parentOf d.size = some p ∧ (∀ x, x ≠ d.size → d'.dataOf x = d.dataOf x) ∧
+        (∀ x, x ≠ p → d'.childrenOf x = d.childrenOf x) ∧ d'.size = d.size + 1) := by
+  obtain ⟨hp, h1 | h2⟩ := append_text_ok h
+  · obtain ⟨last, old, hl, hdl, hs, hd, hsz⟩ := h1
+    exact Or.inl ⟨last, old, hl, hdl, by rw [hd]; simp, fun x hx => by rw [hd]; simp [hx], hs.children,
+      hs.parent, hsz⟩
+  · obtain ⟨hpar, hch, hd, hsz, _⟩ := allocAppend_ok hp h2.2
+    exact Or.inr ⟨h2.1, by rw [hch]; simp, by rw [hd]; simp, by rw [hpar]; simp,
+      fun x hx => by rw [hd]; simp [hx], fun x hx => by rw [hch]; simp [hx], hsz⟩
+
+/-- `append_before_sibling(sibling, text)`: with `P` the sibling's parent and `i` its index, either
+the node at `i-1` is a text node — then `s` is concatenated onto it and nothing else changes — or
+there is none / it is not text, and one fresh text node is inserted at index `i` (immediately before
+the sibling). -/
+theorem C20_text_merge_before_sibling {d d' : Dom} {sib : Id} {s : Str}
+    (h : d.appendBeforeSibling sib (.text s) = .ok d') :
+    ∃ P i, d.parentOf sib = some P ∧ indexOf? sib (d.childrenOf P) = some i ∧
+    ((∃ prev old, 0 < i ∧ (d.childrenOf P)[i - 1]? = some prev ∧ d.dataOf prev = some (.text old) ∧
+        d'.dataOf prev = some (.text (old ++ s)) ∧ (∀ x, x ≠ prev → d'.dataOf x = d.dataOf x) ∧
+        (∀ x, d'.childrenOf x = d.childrenOf x) ∧ (∀ x, d'.parentOf x = d.parentOf x) ∧ d'.size = d.size) ∨
+     ((i = 0 ∨ ∃ prev, (d.childrenOf P)[i - 1]? = some prev ∧ d.isText prev = false) ∧
+        d'.childrenOf P = (d.childrenOf P).take i ++ d.size :: (d.childrenOf P).drop i ∧
+        d'.dataOf d.size = some (.text s) ∧ d'.parentOf d.size = some P ∧
+        (∀ x, x ≠ d.size → d'.dataOf x = d.dataOf x) ∧ (∀ x, x ≠ P → d'.childrenOf x = d.childrenOf x) ∧
+        d'.size = d.size + 1)) := by
+  obtain ⟨P, i, hpar, hi, _, hm⟩ := appendBeforeSibling_ok h
+  refine ⟨P, i, hpar, hi, ?_⟩
+  rcases hm with ⟨prev, old, h0, hp, hdl, hs, hd, hsz⟩ | ⟨hprev, h2⟩
+  · exact Or.inl ⟨prev, old, h0, hp, hdl, by rw [hd]; simp, fun x hx => by rw [hd]; simp [hx], hs.children,
+      hs.parent, hsz⟩
+  · obtain ⟨_, hpp, hch, hd, hsz, _⟩ := insertAtIndex_fresh_ok h2
+    exact Or.inr ⟨hprev, by rw [hch]; simp [insertAt], by rw [hd]; simp, by rw [hpp]; simp,
+      fun x hx => by rw [hd]; simp [hx], fun x hx => by rw [hch]; simp [hx], hsz⟩
+
+/-- `append` (node or text) never produces adjacent text siblings -/
+theorem C20_no_adjacent_text_append {d d' : Dom} (hi : Inv d) (hn : NoAdjacentText d) {p : Id} {ch : NodeOrText}
+    (hc : Contract d (.append p ch)) (h : d.append p ch = .ok d') : NoAdjacentText d' :=
+  hn.append hi.wf (by simpa [Contract, Dom.contractOk] using hc) h
+
+/-- `append_before_sibling` with text never produces adjacent text siblings (the contract's
+"sibling is not a text node" is what makes this true) -/
+theorem C20_no_adjacent_text_before_sibling {d d' : Dom} (hi : Inv d) (hn : NoAdjacentText d) {s : Id} {t : Str}
+    (hc : Contract d (.appendBeforeSibling s (.text t))) (h : d.appendBeforeSibling s (.text t) = .ok d') :
+    NoAdjacentText d' :=
+  hn.appendBeforeSibling_text hi.wf (by simpa [Contract, Dom.contractOk] using hc) h
+
+/-- **Every sink call keeps "no adjacent text siblings"**, except `remove_from_parent`,
+`reparent_children` and `append_before_sibling`/`append_based_on_parent_node` of a node that still has
+a parent (`NeverDetaches`; those detach a node — see the two `…_breaks_adjacency_iff` theorems for
+exactly when that breaks it). -/
+theorem C20_no_adjacent_text_step {d d' : Dom} {op : SinkOp} {out : Output} (hi : Inv d)
+    (hn : NoAdjacentText d) (hc : Contract d op) (h : d.apply op = .ok (d', out))
+    (hop : NeverDetaches d op) : NoAdjacentText d' := by
+  rw [apply_eq_asCode] at h
+  exact hn.applyV hi.wf hc h hop
+
+/-- `remove_from_parent` breaks "no adjacent text siblings" exactly when the previous and the next
+sibling of the removed node are both text nodes (RcDom does not merge them) -/
+theorem C20_remove_breaks_adjacency_iff {d d' : Dom} (hn : NoAdjacentText d) {t p : Id} {i : Nat}
+    (hpar : d.parentOf t = some p) (hidx : indexOf? t (d.childrenOf p) = some i)
+    (h : d.removeFromParent t = .ok d') :
+    NoAdjacentText d' ↔ ¬ (lastT d.isText ((d.childrenOf p).take i) = true ∧
+      headT d.isText ((d.childrenOf p).drop (i + 1)) = true) :=
+  removeFromParent_noAdjacentText_iff hn hpar hidx h
+
+/-- `reparent_children` breaks it exactly when the new parent's last child and the first moved child
+are both text nodes -/
+theorem C20_reparent_breaks_adjacency_iff {d d' : Dom} (hn : NoAdjacentText d) {n np : Id}
+    (h : d.reparentChildren n np = .ok d') :
+    NoAdjacentText d' ↔ ¬ (lastT d.isText (d.childrenOf np) = true ∧ headT d.isText (d.childrenOf n) = true) :=
+  reparentChildren_noAdjacentText_iff hn h
+
+-- non-vacuity: `a<b>x</b>c`, remove `b`: the two text nodes become adjacent
+section
+def exAdj : Dom := (runCheck Dom.new
+  [ .createElement (qn ['p']) [] {}, .append 0 (.node 1), .append 1 (.text ['a']),
+    .createElement (qn ['b']) [] {}, .append 1 (.node 3), .append 1 (.text ['c']) ]).getD Dom.new
+example : exAdj.childrenOf 1 = [2, 3, 4] ∧ noAdj exAdj.isText (exAdj.childrenOf 1) = true := by decide
+example : ∃ d', exAdj.removeFromParent 3 = .ok d' ∧ d'.childrenOf 1 = [2, 4] ∧
+    noAdj d'.isText (d'.childrenOf 1) = false := ⟨_, rfl, by decide, by decide⟩
+end
+
+/-! ## attributes -/
+
+/-- `add_attrs_if_missing`: the existing attributes stay where they are with their values (nothing is
+overwritten); appended are exactly the given attributes whose name does not occur on the element,
+in the given order; nothing else changes. -/
+theorem C20_attrs {d d' : Dom} {t : Id} {attrs : List Attr} (h : d.addAttrsIfMissing t attrs = .ok d') :
+    ∃ added, d'.attrsOf t = d.attrsOf t ++ added ∧
+      (∀ a, a ∈ added ↔ a ∈ attrs ∧ ∀ e ∈ d.attrsOf t, e.name ≠ a.name) ∧ added.Sublist attrs ∧
+      (∀ x, x ≠ t → d'.dataOf x = d.dataOf x) ∧ (∀ x, d'.parentOf x = d.parentOf x) ∧
+      (∀ x, d'.childrenOf x = d.childrenOf x) ∧ d'.localNameOf t = d.localNameOf t ∧
+      d'.templateContentsOf t = d.templateContentsOf t := by
+  obtain ⟨name, existing, tc, ip, hdt, hs, hd, _⟩ := addAttrsIfMissing_ok h
+  have hd' : d'.dataOf t = some (.element name (existing ++ Dom.missingAttrs existing attrs) tc ip) := by
+    rw [hd]; simp
+  refine ⟨Dom.missingAttrs existing attrs, ?_, ?_, missingAttrs_sublist _ _, fun x hx => by rw [hd]; simp [hx],
+    hs.parent, hs.children, ?_, ?_⟩
+  · simp [Dom.attrsOf, hd', hdt]
+  · intro a; simp only [Dom.attrsOf, hdt]; exact mem_missingAttrs
+  · simp [Dom.localNameOf, hd', hdt]
+  · simp [Dom.templateContentsOf, hd', hdt]
+
+/-- … and when neither list has a repeated name (the contract), every missing name is added exactly
+once: the result has no repeated name. -/
+theorem C20_attrs_no_overwrite {d d' : Dom} {t : Id} {attrs : List Attr}
+    (h : d.addAttrsIfMissing t attrs = .ok d') (he : ((d.attrsOf t).map (·.name)).Nodup)
+    (hc : Dom.attrNamesNodup attrs = true) :
+    ((d'.attrsOf t).map (·.name)).Nodup ∧ ∀ e ∈ d.attrsOf t, e ∈ d'.attrsOf t := by
+  obtain ⟨name, existing, tc, ip, hdt, _, hd, _⟩ := addAttrsIfMissing_ok h
+  have hd' : d'.dataOf t = some (.element name (existing ++ Dom.missingAttrs existing attrs) tc ip) := by
+    rw [hd]; simp
+  simp only [Dom.attrsOf, hdt, hd'] at he ⊢
+  exact ⟨nodup_names_merge he ((attrNamesNodup_iff attrs).mp hc), fun e he => List.mem_append_left _ he⟩
+
+-- non-vacuity (and the snapshot behaviour when the contract is violated: a name repeated inside the
+-- argument is added twice)
+section
+def at' (n v : List Char) : Attr := { name := { ns := [], loc := n }, value := v }
+def exAt : Dom := (runCheck Dom.new [ .createElement (qn ['h']) [at' ['i'] ['1']] {} ]).getD Dom.new
+example : ∃ d', exAt.addAttrsIfMissing 1 [at' ['x'] ['2'], at' ['i'] ['3']] = .ok d' ∧
+    d'.attrsOf 1 = [at' ['i'] ['1'], at' ['x'] ['2']] := ⟨_, rfl, by decide⟩
+example : ∃ d', exAt.addAttrsIfMissing 1 [at' ['x'] ['2'], at' ['x'] ['3']] = .ok d' ∧
+    d'.attrsOf 1 = [at' ['i'] ['1'], at' ['x'] ['2'], at' ['x'] ['3']] := ⟨_, rfl, by decide⟩
+end
+
+/-! ## re-parenting, removal, template contents -/
+
+/-- `reparent_children(node, new_parent)`: the children of `node` are appended, in order, after the
+children of `new_parent`; their parent links name `new_parent`; `node` is left without children;
+nothing else changes. -/
+theorem C20_reparent {d d' : Dom} {n np : Id} (h : d.reparentChildren n np = .ok d') :
+    d'.childrenOf np = d.childrenOf np ++ d.childrenOf n ∧ d'.childrenOf n = [] ∧
+    (∀ c ∈ d.childrenOf n, d'.parentOf c = some np) ∧
+    (∀ x, x ∉ d.childrenOf n → d'.parentOf x = d.parentOf x) ∧
+    (∀ x, x ≠ n → x ≠ np → d'.childrenOf x = d.childrenOf x) ∧ (∀ x, d'.dataOf x = d.dataOf x) ∧
+    d'.size = d.size := by
+  obtain ⟨hne, _, _, hp, hch, hd, hsz, _⟩ := reparentChildren_ok h
+  have hnp : np ≠ n := fun e => hne e.symm
+  refine ⟨by rw [hch]; simp [hnp], by rw [hch]; simp, fun c hc => by rw [hp]; simp [hc],
+    fun x hx => by rw [hp]; simp [hx], fun x h1 h2 => by rw [hch]; simp [h1, h2], hd, hsz⟩
+
+/-- `remove_from_parent(target)`: nothing happens to a parentless node; otherwise the node is taken
+out of its parent's child list (the order of the others is kept), its parent link is cleared, and
+nothing else changes. -/
+theorem C20_remove_from_parent {d d' : Dom} (hi : Inv d) {t : Id} (h : d.removeFromParent t = .ok d') :
+    (d.parentOf t = none ∧ d' = d) ∨
+    (∃ p l1 l2, d.parentOf t = some p ∧ d.childrenOf p = l1 ++ t :: l2 ∧ d'.childrenOf p = l1 ++ l2 ∧
+      t ∉ l1 ++ l2 ∧ d'.parentOf t = none ∧ (∀ x, x ≠ t → d'.parentOf x = d.parentOf x) ∧
+      (∀ x, x ≠ p → d'.childrenOf x = d.childrenOf x) ∧ (∀ x, d'.dataOf x = d.dataOf x)) := by
+  rcases removeFromParent_ok h with h0 | ⟨p, i, hpar, hidx, hp, hch, hd, _, _⟩
+  · exact Or.inl h0
+  · obtain ⟨hsplit, _, _⟩ := indexOf?_some hidx
+    refine Or.inr ⟨p, (d.childrenOf p).take i, (d.childrenOf p).drop (i + 1), hpar, hsplit, ?_, ?_, ?_, ?_, ?_, hd⟩
+    · rw [hch]; simp [removeAt]
+    · exact not_mem_removeAt (hi.wf.nodup p) hsplit
+    · rw [hp]; simp
+    · intro x hx; rw [hp]; simp [hx]
+    · intro x hx; rw [hch]; simp [hx]
+
+/-- `create_element` with the `template` flag makes a fresh, empty, parentless `Document` node the
+element's template contents, and `get_template_contents` returns it; without the flag
+`get_template_contents` panics. -/
+theorem C20_template_contents (d : Dom) (name : QualName) (attrs : List Attr) (ip dup : Bool) :
+    (let r := d.createElement name attrs { template := true, mathmlIP := ip, hadDuplicateAttributes := dup }
+     r.2 = d.size + 1 ∧ r.1.getTemplateContents r.2 = .ok d.size ∧ r.1.dataOf d.size = some .document ∧
+     r.1.parentOf d.size = none ∧ r.1.childrenOf d.size = [] ∧
+     r.1.dataOf r.2 = some (.element name attrs (some d.size) ip)) ∧
+    (let r := d.createElement name attrs { template := false, mathmlIP := ip, hadDuplicateAttributes := dup }
+     r.2 = d.size ∧ (∃ e, r.1.getTemplateContents r.2 = .error e) ∧
+     r.1.dataOf r.2 = some (.element name attrs none ip)) := by
+  constructor
+  · simp only [Dom.createElement, if_true]
+    have hsz : (d.alloc NodeData.document).1.size = d.size + 1 := size_alloc d _
+    have hn : ((d.alloc NodeData.document).1.alloc (.element name attrs (some d.size) ip)).1.node? (d.size + 1)
+        = some { data := .element name attrs (some d.size) ip } := by
+      rw [node?_alloc]; simp [hsz]
+    have hid : ((d.alloc NodeData.document).1.alloc (.element name attrs (some (d.alloc NodeData.document).2) ip)).2
+        = d.size + 1 := by rw [alloc_id]; exact hsz
+    have htc : (d.alloc NodeData.document).2 = d.size := alloc_id d _
+    rw [htc] at hid
+    refine ⟨hid, ?_, ?_, ?_, ?_, ?_⟩
+    · rw [htc, hid]; simp [Dom.getTemplateContents, bind, Except.bind, get_ok_of hn]
+    · rw [htc, dataOf_alloc, dataOf_alloc]; simp [hsz]
+    · rw [htc, parentOf_alloc, parentOf_alloc]; exact parentOf_none_of_ge (Nat.le_refl _)
+    · rw [htc, childrenOf_alloc, childrenOf_alloc]; exact childrenOf_nil_of_ge (Nat.le_refl _)
+    · rw [htc, hid, dataOf_alloc]; simp [hsz]
+  · have hn : (d.alloc (.element name attrs none ip)).1.node? d.size
+        = some { data := .element name attrs none ip } := by
+      rw [node?_alloc]; simp
+    simp only [Dom.createElement, Bool.false_eq_true, if_false]
+    refine ⟨alloc_id d _, ?_, ?_⟩
+    · rw [alloc_id]; simp only [Dom.getTemplateContents, bind, Except.bind, get_ok_of hn]
+      exact ⟨_, rfl⟩
+    · rw [alloc_id, dataOf_alloc]; simp
+
+/-! ## `append_before_sibling` with a node -/
+
+/-- The node ends up immediately before the sibling — **proved for a node that is not already a child
+of the sibling's parent** (what html5ever does: it detaches first).  `_partial`: the full statement
+(any node the contract allows, "new_node may have an old parent") is false when the node is an
+*earlier* child of the same parent, see `C20_witness_before_sibling`; for a *later* child it holds
+(covered by the correspondence cases, not proved). -/
+theorem C20_before_sibling_position_partial {d d' : Dom} {s c : Id}
+    (h : d.appendBeforeSibling s (.node c) = .ok d') (hnot : d.parentOf c ≠ d.parentOf s) :
+    ∃ P l1 l2, d.parentOf s = some P ∧ d.childrenOf P = l1 ++ s :: l2 ∧
+      d'.childrenOf P = l1 ++ c :: s :: l2 ∧ d'.parentOf c = some P := by
+  obtain ⟨P, i, hpar, hidx, _, hm⟩ := appendBeforeSibling_ok h
+  simp only at hm
+  obtain ⟨d1, hr, _, _, _, hp, hch, _, _, _⟩ := insertAtIndex_ok hm
+  obtain ⟨hsplit, _, hlt⟩ := indexOf?_some hidx
+  have hsame : d1.childrenOf P = d.childrenOf P := by
+    rcases removeFromParent_ok hr with ⟨_, he⟩ | ⟨p', _, hpar', _, _, hch', _⟩
+    · rw [he]
+    · rw [hch']
+      have : P ≠ p' := by
+        intro e; subst e; exact hnot (hpar'.trans hpar.symm)
+      simp [this]
+  have hdrop : (d.childrenOf P).drop i = s :: (d.childrenOf P).drop (i + 1) := by
+    have hget := indexOf?_getElem hidx
+    rw [List.drop_eq_getElem_cons hlt]
+    congr 1
+    rw [List.getElem?_eq_getElem hlt] at hget
+    exact Option.some.inj hget
+  refine ⟨P, (d.childrenOf P).take i, (d.childrenOf P).drop (i + 1), hpar, hsplit, ?_, by rw [hp]; simp⟩
+  rw [hch, hsame]; simp [insertAt, hdrop]
+
+/-- the gap: children `[b, c]`, `append_before_sibling(c, b)` leaves `b` *after* `c`
+(`get_parent_and_index` is evaluated before `remove_from_parent(&child)`, lib.rs:450/478/481) -/
+def exReinsert : Dom := (runCheck Dom.new
+  [ .createElement (qn ['a']) [] {}, .createElement (qn ['b']) [] {}, .createElement (qn ['c']) [] {},
+    .append 0 (.node 1), .append 1 (.node 2), .append 1 (.node 3) ]).getD Dom.new
+
+theorem C20_witness_before_sibling :
+    exReinsert.childrenOf 1 = [2, 3] ∧ Contract exReinsert (.appendBeforeSibling 3 (.node 2)) ∧
+    ∃ d', exReinsert.appendBeforeSibling 3 (.node 2) = .ok d' ∧ d'.childrenOf 1 = [3, 2] ∧
+      ¬ ∃ l1 l2, d'.childrenOf 1 = l1 ++ 2 :: 3 :: l2 := by
+  refine ⟨by decide, by decide, _, rfl, by decide, ?_⟩
+  rintro ⟨l1, l2, h⟩
+  have h' : ([3, 2] : List Id) = l1 ++ 2 :: 3 :: l2 := by
+    rw [← h]; decide
+  match l1, h' with
+  | [], h' => simp at h'
+  | [_], h' => simp at h'
+  | _ :: _ :: _, h' => simp at h'
+
+/-! ## option → selectedcontent -/
+
+/-- **What the standard demands** of `maybe_clone_an_option_into_selectedcontent` is
+`Dom.maybeCloneOption .fixed`: with `select` = the option's nearest ancestor select
+(`Dom.nearestAncestorSelect`), when `select` exists and is not `multiple`, the option has a `selected`
+attribute and `select` has a `selectedcontent` descendant, the children of the *first such descendant in
+tree order* are replaced by deep copies of the option's children (`Dom.cloneOptionInto .fixed`:
+copies point to their copied parents, old children are detached, template contents are copied).
+
+**What rcdom does** (`.asCode`): nothing, ever — the search loop tests the `select` itself. -/
+theorem C20_clone_asCode_noop {d d' : Dom} {o : Id} (h : d.maybeCloneOption .asCode o = .ok d') : d' = d :=
+  maybeCloneOption_asCode_eq h
+
+/-- `_partial`: rcdom agrees with the standard on exactly those calls where the standard has nothing
+to mirror (`cloneTarget .fixed = none`); what is missing is every call where it has
+(`C20_witness_clone_option`). -/
+theorem C20_clone_option_partial {d : Dom} {o : Id} (hspec : d.cloneTarget .fixed o = .ok none) :
+    d.maybeCloneOption .fixed o = .ok d ∧ ∀ d', d.maybeCloneOption .asCode o = .ok d' → d' = d := by
+  refine ⟨?_, fun d' h => maybeCloneOption_asCode_eq h⟩
+  simp [Dom.maybeCloneOption, bind, Except.bind, hspec]
+
+/-- `<select><button><selectedcontent>old</selectedcontent></button><option selected>A<b>B</b>` -/
+def exSelect : Dom := (runCheck Dom.new
+  [ .createElement (qn sSelect) [] {}, .append 0 (.node 1), .createElement (qn ['b','u','t','t','o','n']) [] {},
+    .append 1 (.node 2), .createElement (qn sSelectedcontent) [] {}, .append 2 (.node 3),
+    .append 3 (.text ['o','l','d']), .createElement (qn sOption) [at' sSelected []] {}, .append 1 (.node 5),
+    .append 5 (.text ['A']), .createElement (qn ['b']) [] {}, .append 5 (.node 7), .append 7 (.text ['B'])
+  ]).getD Dom.new
+
+/-- the gap (DESIGN 1.3 item 11): the standard mirrors the option into the selectedcontent (node 3),
+rcdom leaves the tree as it was -/
+theorem C20_witness_clone_option :
+    Contract exSelect (.maybeCloneAnOptionIntoSelectedcontent 5) ∧
+    exSelect.cloneTarget .fixed 5 = .ok (some 3) ∧ exSelect.cloneTarget .asCode 5 = .ok none ∧
+    exSelect.maybeCloneOption .asCode 5 = .ok exSelect ∧
+    ¬ (exSelect.maybeCloneOption .asCode 5 = exSelect.maybeCloneOption .fixed 5) := by
+  refine ⟨by decide, by decide, by decide, by decide, by decide⟩
+
+set_option maxRecDepth 8192 in
+/-- what the `.fixed` variant computes on the witness: `A<b>B</b>` copied under the selectedcontent,
+with consistent parent links (no `^` marks in the dump), the old text detached -/
+theorem C20_clone_option_fixed_example :
+    (exSelect.maybeCloneOption .fixed 5).toOption.map Dom.dump = some
+      ("(doc(el,~/68/73 65 6c 65 63 74,-,-(el,~/68/62 75 74 74 6f 6e,-,-(el,~/68/73 65 6c 65 63 74 65 64 63 6f 6e 74 65 6e 74,-,-"
+        ++ "(tx,41)(el,~/68/62,-,-(tx,42))))(el,~/68/6f 70 74 69 6f 6e,~/-/73 65 6c 65 63 74 65 64=-,-(tx,41)(el,~/68/62,-,-(tx,42)))));Q=no") ∧
+    ((exSelect.maybeCloneOption .fixed 5).toOption.map (·.parentOf 4)) = some none := by
+  constructor <;> decide
+
+/-! ## serialization -/
+
+/-- rcdom's `Serialize` impl, run on the children of the document (what `html5ever::serialize` does),
+calls the serializer for exactly the descendants of the document in document order (pre-order); the
+pre-order list of the whole document is the document followed by them. -/
+theorem C20_serialize_preorder {d : Dom} (hi : Inv d) (hdoc : Dom.document < d.size) :
+    d.serializeVisit .childrenOnly Dom.document = .ok (d.descendants Dom.document) ∧
+    d.preorder = Dom.document :: d.descendants Dom.document ∧
+    (∀ x, x < d.size → d.dataOf x ≠ some .document → d.serializeVisit .includeNode x = .ok (d.subtree x)) ∧
+    (∀ x, x < d.size → d.serializeVisit .childrenOnly x = .ok (d.descendants x)) :=
+  ⟨serializeVisit_childrenOnly hi.wf hi.kinds hdoc, subtree_unfold hi.wf hdoc,
+   fun _ hx hnd => serializeVisit_includeNode hi.wf hi.kinds hx hnd,
+   fun _ hx => serializeVisit_childrenOnly hi.wf hi.kinds hx⟩
+
+/-- each node is visited exactly once: the pre-order list of any node has no repetition and
+consists of exactly the node and its descendants (`Anc d x y`: `x` is `y` or an ancestor of `y`);
+the complete sequence of serializer calls is `eventsOf` (start tag, children, end tag). -/
+theorem C20_serialize_each_node_once {d : Dom} (hi : Inv d) {x : Id} (hx : x < d.size) :
+    (d.subtree x).Nodup ∧ (∀ y, y ∈ d.subtree x ↔ Anc d x y) ∧
+    d.serialize .childrenOnly x = .ok ((d.childrenOf x).flatMap (eventsOf d)) :=
+  ⟨nodup_subtree hi.wf x hx, fun _ => mem_subtree_iff hi.wf hx, serialize_childrenOnly hi.wf hi.kinds hx⟩
+
+example : exDom.serializeVisit .childrenOnly 0 = .ok [3, 1, 5, 4] ∧ exDom.preorder = [0, 3, 1, 5, 4] := by decide
+example : exSelect.serializeVisit .childrenOnly 0 = .ok [1, 2, 3, 4, 5, 6, 7, 8] := by decide
 
 end H5V.Props.C20
